@@ -2,7 +2,7 @@
 (***************************************************************************)
 (* Trace validation for C11: every request replayed against the real       *)
 (* DispatchPublic / DispatchPrivate on the single-node rig is one ND-JSON   *)
-(* record {ev:"Req", req, vs, vsAfter, login, obs}: the abstract request,   *)
+(* record {ev:"Req", req, vs, vsAfter, ns, kind, obs}: the abstract request,*)
 (* the victim's state before and after as projected from the real server,   *)
 (* and the observed response class / effect / disclosure.  Each record must *)
 (* be the decision of ApiAuth!Decide in the current state; the invariants   *)
@@ -17,21 +17,42 @@ tvars == <<vars, l, drift>>
 
 Trace == ndJsonDeserialize("ApiAuth_trace.ndjson")
 
-TInit == l = 0 /\ drift = 0 /\ vstate = "fresh" /\ last = None /\ TLCSet(1, 0)
+TInit == l = 0 /\ drift = 0 /\ vstate = "fresh" /\ nstate = "absent" /\ inflight = None /\ last = None /\ TLCSet(1, 0)
 
+Drifted(e, x) == drift' = drift + 1 /\ TLCSet(1, TLCGet(1) + 1) /\ PrintT(<<"DRIFT", l + 1, e, vstate, nstate, x>>)
+
+(* Events: Reset (new victim / new program), Req (a request answered at    *)
+(* once), Later (an entry newer than the ended victim was processed),       *)
+(* Arrive (request naming the not yet existing next session id is sent),    *)
+(* Appear (that session is created and gets traffic), Complete (the answer  *)
+(* to the request in flight, read after Appear).                            *)
 Step ==
     /\ l < Len(Trace)
     /\ l' = l + 1
     /\ LET e == Trace[l + 1] IN
-       IF e.ev = "Reset"
-       THEN vstate' = "fresh" /\ last' = None /\ UNCHANGED drift
-       ELSE LET x  == Decide(e.req, vstate)
-                nv == NextV(e.req, vstate, x, e.login)
-                ok == e.vs = vstate /\ e.obs = x /\ e.vsAfter = nv IN
-            /\ last' = [req |-> e.req, vs |-> e.vs, resp |-> e.obs]
-            /\ vstate' = e.vsAfter
-            /\ IF ok THEN UNCHANGED drift
-               ELSE drift' = drift + 1 /\ TLCSet(1, TLCGet(1) + 1) /\ PrintT(<<"DRIFT", l + 1, e, vstate, x>>)
+       CASE e.ev = "Reset" ->
+              vstate' = "fresh" /\ nstate' = "absent" /\ inflight' = None /\ last' = None /\ UNCHANGED drift
+         [] e.ev = "Req" ->
+              LET x  == Decide(e.req, vstate, nstate)
+                  nv == NextV(e.req, vstate, x, e.kind)
+                  ok == e.vs = vstate /\ e.ns = nstate /\ e.obs = x /\ e.vsAfter = nv IN
+              /\ last' = [req |-> e.req, vs |-> e.vs, ns |-> e.ns, phase |-> "static", resp |-> e.obs]
+              /\ vstate' = e.vsAfter /\ nstate' = e.ns /\ UNCHANGED inflight
+              /\ IF ok THEN UNCHANGED drift ELSE Drifted(e, x)
+         [] e.ev = "Later" ->
+              /\ vstate' = e.vsAfter /\ last' = None /\ UNCHANGED <<nstate, inflight>>
+              /\ IF vstate = "quitLast" /\ e.vsAfter = "deleted" THEN UNCHANGED drift ELSE Drifted(e, "deleted")
+         [] e.ev = "Arrive" ->
+              /\ inflight' = [req |-> e.req, resp |-> Decide(e.req, vstate, nstate)]
+              /\ UNCHANGED <<vstate, nstate, last>>
+              /\ IF nstate = "absent" /\ inflight = None THEN UNCHANGED drift ELSE Drifted(e, nstate)
+         [] e.ev = "Appear" ->
+              /\ nstate' = "live" /\ UNCHANGED <<vstate, inflight, last, drift>>
+         [] e.ev = "Complete" ->
+              LET x == IF inflight = None THEN NotFound ELSE inflight.resp IN
+              /\ last' = [req |-> e.req, vs |-> e.vs, ns |-> nstate, phase |-> "inflight", resp |-> e.obs]
+              /\ inflight' = None /\ UNCHANGED <<vstate, nstate>>
+              /\ IF inflight # None /\ e.obs = x THEN UNCHANGED drift ELSE Drifted(e, x)
 
 TSpec == TInit /\ [][Step]_tvars
 
